@@ -316,9 +316,9 @@ def gen_plan(prop, seed, tier, idx):
                   "a": {"bip85_mnemonic": rng.choice([12, 18, 24]), "bip85_hex": rng.choice([16, 32, 64]),
                         "bip85_pwd": rng.choice([20, 21, 86])}[app]}
         elif x < 0.88:
-            a_ = rng.choice([0, 5, HARD - 2, HARD, 2 ** 32 - 3])
-            op = {"op": "generate_children", "h": h, "il": [a_, a_ + 1][:rng.randint(1, 2)]}
-            if op["il"][-1] >= 2 ** 32:
+            a_ = rng.choice([0, 5, HARD - 2, HARD - 1, HARD - 3, HARD, 2 ** 32 - 3])
+            op = {"op": "generate_children", "h": h, "il": list(range(a_, a_ + rng.choice([1, 2, 2, 3, 4])))}
+            if op["il"][-1] >= 2 ** 32:                 # (intervals may straddle the hardened boundary 2^31)
                 op["il"] = [0, 1]
             if op["il"][-1] < HARD and rng.random() < 0.4:
                 op["op"] = "pub_generate_children"      # the watch-only side of the same bulk route
@@ -850,7 +850,7 @@ class DerivationSim(Simulator):
 
     # ----------------------------------------------------------------------- reporting
     def secondary_backends(self, prop, tier):
-        return [("stub", 800, None)] if tier == "quick" else [("stub", None, 120)]
+        return [("stub", 800, None), ("ecdsa-O", 300, None)] if tier == "quick" else [("stub", None, 120), ("ecdsa-O", None, 60)]
 
     def quick_runs(self, prop):
         return int(os.environ.get("VERIF_%s_RUNS" % prop, "3200"))
